@@ -8,7 +8,7 @@ import warnings
 from hypothesis import strategies as st
 
 from .. import fakedul as fd, refcmd, refpdu, svc
-from ..common import Violation, HarnessError, hyp_search, parallel, lib_frame
+from ..common import Violation, HarnessError, hyp_search, parallel, lib_frame, quiet_warnings
 from .c17 import alias, REMOTE
 
 LEVEL = 'exploration'
@@ -327,7 +327,7 @@ def repeated_moves(nmoves, creds, lazy=False):
 
 
 def run_move_enum(ctx, job):
-    warnings.simplefilter('ignore')
+    quiet_warnings()
     for n in job['ns']:
         for outcomes in itertools.product('swf', repeat=n):
             oc = ''.join(outcomes)
@@ -385,12 +385,12 @@ def run_get_enum(ctx):
 
 
 def shard(ctx, job):
-    warnings.simplefilter('ignore')
+    quiet_warnings()
     run_random(ctx, job['n'])
 
 
 def run(ctx):
-    warnings.simplefilter('ignore')
+    quiet_warnings()
     ctx.rule = ('C-MOVE provider: every outcome string over {success, warning, failure} for 0-4 sub-operations '
                 '(exhaustive), sampled for 5-8, the default handler (nothing to move, destination unknown), a destination that never confirms the release, boundary '
                 'message/context ids; 1-3 moves on one association to one destination described by one dict (with and without credentials);  C-GET user: peer scripts interleaving 0-8 C-STORE requests (two SOP classes, '
@@ -415,7 +415,7 @@ def run(ctx):
 
 
 def replay(case):
-    warnings.simplefilter('ignore')
+    quiet_warnings()
     if case['kind'] == 'repeated-moves':
         repeated_moves(case['moves'], case['creds'], case.get('lazy', False))
     elif case['kind'] == 'move':
